@@ -591,6 +591,144 @@ def shard_read(acc, shard, nshards, params):
     core.drive(acc, "read_only", case_read_only, gen(), shard, nshards, family="read-only[depth=%d]" % depth)
 
 
+
+# ---------------------------------------------------------------------------
+# a read leaves no trace in the future: (read, then edit, then observe) equals (edit, then observe) on a twin that
+# was never read.  Differential oracle - nothing about the semantics of the reads or of the edits is assumed.
+
+def _mkf1(spec):
+    coords, ordered, shape = spec
+    kw = {}
+    if not ordered:
+        kw["ordered"] = False
+    if shape is not None:
+        kw["shape"] = shape
+    return Fiber(list(coords), [10 + c for c in coords], **kw)
+
+
+F_READS = {
+    "getShape": lambda f: f.getShape(),
+    "getShape-nonauth": lambda f: f.getShape(authoritative=False),
+    "estimateShape": lambda f: f.estimateShape(),
+    "getActive": lambda f: f.getActive(),
+    "maxCoord": lambda f: f.maxCoord(),
+    "minCoord": lambda f: f.minCoord(),
+    "iterActive": lambda f: list(f.iterActive()),
+    "iterOccupancy": lambda f: list(f.iterOccupancy()),
+    "iter": lambda f: list(f),
+    "len": lambda f: len(f),
+    "isEmpty": lambda f: f.isEmpty(),
+    "countValues": lambda f: f.countValues(),
+    "getDepth": lambda f: f.getDepth(),
+    "str": lambda f: str(f),
+    "eq": lambda f: f == Fiber([0], [1]),
+    "getPayload-absent": lambda f: f.getPayload(99),
+    "getPosition": lambda f: f.getPosition(2),
+    "uncompress": lambda f: f.uncompress(),
+    "fiber2dict": lambda f: f.fiber2dict(),
+    "getCoords": lambda f: list(f.getCoords()),
+    "nonEmpty": lambda f: f.nonEmpty(),
+    "copy": lambda f: copy.deepcopy(f),
+    "add-scalar": lambda f: f + 1,
+    "splitUniform": lambda f: f.splitUniform(2),
+}
+
+
+def _fedit(f, e):
+    k = e[0]
+    if k == "append":
+        f.append(e[1], e[2])
+    elif k == "ref":
+        r = f.getPayloadRef(e[1])
+        r <<= e[2]
+    elif k == "setcp":
+        f[e[1]] = CoordPayload(e[2], e[3])
+    elif k == "setv":
+        f[e[1]] = e[2]
+    elif k == "iadd":
+        f += Fiber(list(e[1]), list(e[2]))
+    elif k == "clear":
+        f.clear()
+    elif k == "extend":
+        f.extend(Fiber(list(e[1]), list(e[2])))
+
+
+def _fobserve(f):
+    obs = [("raw", rawtree(f))]
+    for name in ("getShape", "getShape-nonauth", "estimateShape", "getActive", "maxCoord", "iterActive", "iterOccupancy",
+                 "len", "isEmpty", "countValues", "str", "fiber2dict", "add-scalar"):
+        try:
+            v = F_READS[name](f)
+            if name in ("iterActive", "iterOccupancy"):
+                v = [(c, Payload.get(p)) for c, p in v]
+            elif name == "add-scalar":
+                v = rawtree(v)
+            obs.append((name, repr(v)))
+        except Exception as ex:
+            obs.append((name, "EXC:" + type(ex).__name__))
+    return obs
+
+
+def case_read_then_edit(case):
+    spec, rname, edit = case
+    out = []
+    feats = {"read:" + rname, "edit:" + edit[0], "ordered" if spec[1] else "unordered",
+             "declared_shape" if spec[2] is not None else "no_declared_shape"}
+    cur = core.CUR
+    try:
+        twin = _mkf1(spec)
+        f = _mkf1(spec)
+    except Exception:
+        return out
+    try:
+        F_READS[rname](f)
+    except Exception as ex:
+        cur.path("read-raised:%s:%s" % (rname, type(ex).__name__))
+    errs = []
+    for x in (twin, f):
+        try:
+            _fedit(x, edit)
+            errs.append(None)
+        except Exception as ex:
+            errs.append(type(ex).__name__)
+    cur.transitions += 2
+    cur.validated += 1
+    if errs[0] != errs[1]:
+        out.append(("read-then-edit", "edit-outcome-depends-on-an-earlier-read", feats, errs[0], errs[1]))
+    else:
+        a, b = _fobserve(twin), _fobserve(f)
+        if a != b:
+            d = [(x[0], x[1], y[1]) for x, y in zip(a, b) if x != y]
+            out.append(("read-then-edit", "future-depends-on-an-earlier-read", feats | {"differs:" + d[0][0]},
+                        [x[1:] for x in d][0][0], [x[1:] for x in d][0][1]))
+    cur.nt("read-then-edit")
+    cur.states += 1
+    return out
+
+
+def shard_read_then_edit(acc, shard, nshards, params):
+    quick, = params
+    specs = []
+    for coords in ((), (1,), (0, 2), (1, 2, 4), (0, 1, 2)):
+        for shape in (None, 6):
+            specs.append((coords, True, shape))
+    for coords in ((2, 0), (3, 1, 2), (0, 4, 1)):
+        for shape in (None, 6):
+            specs.append((coords, False, shape))
+    edits = [("append", 5, 7), ("append", 7, 7), ("append", 3, 0), ("ref", 5, 7), ("ref", 0, 7), ("ref", 3, 0), ("ref", 7, 7),
+             ("setcp", 0, 9, 7), ("setcp", -1, 9, None), ("setcp", -1, 8, 3), ("setv", 0, 0), ("setv", -1, 5),
+             ("iadd", (1, 5), (1, 1)), ("iadd", (1, 2, 4), (-11, -12, 3)), ("iadd", (1, 6), (-11, 5)), ("iadd", (0, 7), (-10, 5)),
+             ("clear",), ("extend", (8, 9), (1, 1))]
+
+    def gen():
+        for sp in specs:
+            for r in F_READS:
+                for e in edits:
+                    yield (sp, r, e)
+    core.drive(acc, "read_then_edit", case_read_then_edit, gen(), shard, nshards,
+               family="read-then-edit[%d fibers x %d reads x %d edits]" % (len(specs), len(F_READS), len(edits)))
+
+
 HLS = [None, {"PE": [(1,)]}, {"PE": [(0,)], "Q": [(1, 1)]}, {"PE": [(1, 0)]}]
 
 
@@ -667,7 +805,7 @@ def shard_render(acc, shard, nshards, params):
     core.drive(acc, "render", case_render, gen(), shard, nshards, family="render[depth=%d]" % depth)
 
 
-CASES = {"value_returning": case_value_returning, "read_only": case_read_only, "render": case_render}
+CASES = {"read_then_edit": case_read_then_edit, "value_returning": case_value_returning, "read_only": case_read_only, "render": case_render}
 
 
 def run(ctx):
@@ -686,6 +824,12 @@ def run(ctx):
     if sel("read"):
         ctx.shards(shard_read, (2, q, None))
         ctx.shards(shard_read, (3, q, 1 if q else 2))
+    if sel("read"):
+        ctx.shards(shard_read_then_edit, (q,))
+        ctx.bounds["read-then-edit"] = ("1-D fibers (ordered and ordered=False, with and without a declared shape) x %d read-only / "
+                                        "value-returning operations x 18 public edits: the edited fiber must be indistinguishable "
+                                        "(raw tree, shape / active-range / extreme-coordinate queries, traversals, printing, f + 1) from "
+                                        "a twin that got the same edit without the earlier read" % len(F_READS))
     if sel("render"):
         ctx.shards(shard_render, (2, 40 if q else 100), nshards=core.NPROC * 2)
         if not q:
